@@ -657,6 +657,10 @@ impl<'a, 'e> Rewriter<'a, 'e> {
             }
             return;
         }
+        // debug_assert*!: checked like assert*! (an obligation "never fires"; in release builds the check is compiled out, so
+        // treating it as an obligation is the conservative reading)
+        let dbg = name.starts_with("debug_assert");
+        let name = if dbg { name["debug_".len()..].to_string() } else { name };
         if name == "assert_eq" || name == "assert_ne" {
             let args = args.unwrap_or_else(|| fail(format!("{}:{}: cannot parse arguments of {}!", self.src.rel, self.src.line_of(a), name)));
             if args.len() < 2 {
@@ -691,7 +695,7 @@ impl<'a, 'e> Rewriter<'a, 'e> {
                 let pieces = vec![Self::lit("if !("), self.sub(args[0].span()), Self::lit(") { shim_abort(); }")];
                 self.ed.replace(a, b, pieces, "R6");
                 self.fire("R6");
-            } else if args.len() > 1 {
+            } else if args.len() > 1 || dbg {
                 // drop the message (format arguments of a failing assert are not evaluated on the passing path)
                 let pieces = vec![Self::lit("assert!("), self.sub(args[0].span()), Self::lit(")"), Self::lit(semi)];
                 self.ed.replace(a, b, pieces, "R10");
@@ -731,6 +735,19 @@ impl<'a, 'e, 'ast> Visit<'ast> for Rewriter<'a, 'e> {
                 let sep = if c.args.is_empty() || c.args.trailing_punct() { "" } else { ", " };
                 self.ed.insert(close, format!("{}{}", sep, extra), 0, "R22");
                 self.fire("R22");
+            }
+        }
+        // R16 (path form): u32::to_le_bytes(X) -> (X).shim_to_le_bytes()   (same function, UFCS spelling)
+        if let syn::Expr::Path(p) = &*c.func {
+            let segs: Vec<String> = p.path.segments.iter().map(|s| s.ident.to_string()).collect();
+            if segs.len() == 2 && segs[1] == "to_le_bytes" && ["u16", "u32", "u64"].contains(&segs[0].as_str()) && c.args.len() == 1 {
+                let (fa, fb) = self.src.range(c.func.span());
+                let open = self.src.off(c.paren_token.span.open().start());
+                let close = self.src.off(c.paren_token.span.close().start());
+                let _ = fb;
+                self.ed.replace(fa, open + 1, vec![Self::lit("(")], "R16");
+                self.ed.replace(close, close + 1, vec![Self::lit(&format!(" as {}).shim_to_le_bytes()", segs[0]))], "R16");
+                self.fire("R16");
             }
         }
         // R29: inline a contract-less same-file helper
